@@ -46,10 +46,30 @@ def django_clear():
     models.Item.objects.all().delete()
 
 
-def sa_engine():
-    """A fresh in-memory SQLite engine with the SQLAlchemy tables created."""
+def _strpos(x, y):
+    if x is None or y is None:
+        return None
+    return str(x).find(str(y)) + 1
+
+
+def _concat(*args):
+    if any(a is None for a in args):
+        return None
+    return "".join(str(a) for a in args)
+
+
+def sa_engine(register_assumed: bool = False):
+    """A fresh in-memory SQLite engine with the SQLAlchemy tables created.  register_assumed=True registers strpos()
+    (= INSTR) and concat() (= ||, NULL-propagating) on every connection: the fair replay for programs checked under
+    the known finding sa-function-missing-on-sqlite."""
     import sqlalchemy as sa
+    from sqlalchemy import event
     from . import sa as samodels
     eng = sa.create_engine("sqlite://")
+    if register_assumed:
+        @event.listens_for(eng, "connect")
+        def _reg(dbapi_conn, _rec):                       # noqa: ANN001
+            dbapi_conn.create_function("strpos", 2, _strpos)
+            dbapi_conn.create_function("concat", -1, _concat)
     samodels.Base.metadata.create_all(eng)
     return eng
